@@ -170,7 +170,7 @@ def _pyop(op):
 
 
 def _strlike(v):
-    return isinstance(v, (str, SymStr, TagName)) or (is_z3(v) and z3.is_string(v))
+    return isinstance(v, (str, SymStr, TagName)) or (is_z3(v) and z3.is_string(v)) or (isinstance(v, Opaque) and v.sort in ('str', 'nonempty_str'))
 
 
 def _numlike(v):
@@ -555,7 +555,17 @@ def call_builtin(interp, py, args, kwargs):
         v = args[0]
         if isinstance(v, Obj) and ctx.data(v).kind == 'list' and ctx.data(v).symlen is not None:
             if py is list:
-                return v     # a list built from a fresh generator result or symbolic list: same elements
+                vd = ctx.data(v)
+                if vd.extra.get('generator_result'):
+                    return v
+                # a new list object with the same elements
+                o = ctx.new_obj('list', name=ctx.fresh('copy'))
+                od = ctx.data(o)
+                od.items = {}
+                od.symlen = vd.symlen
+                od.extra['copy_of'] = v
+                od.elem_factory = lambda key, v=v: interp.list_elem(v, key)
+                return o
         if isinstance(v, SymIter):
             if interp.policy is not None:
                 r = interp.policy.materialize(interp, v)
@@ -646,6 +656,19 @@ def builtin_getattr(interp, args):
 
 def builtin_len(interp, v):
     ctx = interp.ctx
+    if isinstance(v, SymIter):
+        if getattr(v, 'kept', None) is None:
+            kind, seq = interp.as_iterable(v.src)
+            n = z3.Int(ctx.fresh('kept'))
+            ctx.assume(n >= 0)
+            if kind == 'sym':
+                ctx.assume(n <= seq[0])
+                if v.label == 'filter-free':
+                    ctx.assume(n == seq[0])
+            else:
+                ctx.assume(n <= len(seq))
+            v.kept = n
+        return v.kept
     if interp.policy is not None and isinstance(v, (SymStr, Opaque)):
         r = interp.policy.length(interp, v)
         if r is not PROCEED:
@@ -931,11 +954,34 @@ def str_method(interp, recv, name, args, kwargs):
 def list_method(interp, recv, d, name, args, kwargs):
     ctx = interp.ctx
     if d.symlen is not None:
-        if interp.policy is not None:
-            r = interp.policy.call_method(interp, recv, name, args, kwargs)
-            if r is not PROCEED:
-                return r
+        if name == 'pop' and not args:
+            if not ctx.branch(d.symlen >= 1):
+                raise Raised(ExcVal(IndexError, ('pop from empty list',)))
+            ctx.note_write(recv, '<items>')
+            v = interp.list_elem(recv, ('last',)) if ('last',) not in d.items else d.items[('last',)]
+            d.symlen = d.symlen - 1
+            d.extra['popped'] = d.extra.get('popped', 0) + 1
+            d.items.pop(('last',), None)
+            return v
+        if name == 'extend':
+            other = args[0]
+            if isinstance(other, Obj) and ctx.data(other).kind == 'list':
+                od = ctx.data(other)
+                ctx.note_write(recv, '<items>')
+                d.extra.setdefault('parts', [('self0', None)]).append(('list', other))
+                d.symlen = d.symlen + (od.symlen if od.symlen is not None else len(od.items))
+                return None
         raise Undecided('method %s on symbolic-length list' % name)
+    if name == 'extend' and isinstance(args[0], Obj) and ctx.data(args[0]).kind == 'list' and ctx.data(args[0]).symlen is not None:
+        # a concrete list grows by a symbolic one: it becomes symbolic, its content is the recorded concatenation
+        od = ctx.data(args[0])
+        ctx.note_write(recv, '<items>')
+        parts = [('items', list(d.items))] if d.items else []
+        parts.append(('list', args[0]))
+        d.extra['parts'] = parts
+        d.symlen = od.symlen + len(d.items)
+        d.items = {}
+        return None
     if name == 'append':
         ctx.note_write(recv, '<items>')
         d.items.append(args[0])
